@@ -25,7 +25,7 @@ class C06(Prop):
         return (
             "format_agp text of random assemblies (incl. zero/negative-length gaps, empty scaffolds, odd names), of the "
             "assembly derived from random FASTA files by index_fasta_file (the .agp cache), and the output of "
-            "asm-format (AGP and TPF input) run in process; judged by an independent AGP column checker against the "
+            "asm-format (AGP and TPF input) run in process, and of assemblies streamed to FASTA with their AGP (gaps longer than the buffer); judged by an independent AGP column checker against the "
             "scaffold lengths. non-trivial = distinct assembly with >= 2 rows in some scaffold"
         )
 
@@ -45,7 +45,17 @@ class C06(Prop):
             yield {"gen": "format", "kind": "format", "asm": a}
         for _ in range(n // 3):
             layout = F.gen_fasta(rng)
-            yield {"gen": "fasta-derived", "kind": "fasta", "data": F.render(layout), "buf": rng.choice([1, 3, 7, 250000])}
+            yield {"gen": "fasta-derived", "kind": "fasta", "layout": layout, "data": F.render(layout),
+                   "buf": rng.choice([1, 3, 7, 250000])}
+        for _ in range(n // 4):
+            # FASTA written with its AGP: gaps longer than the stream buffer, rows of both strands
+            from .c14 import gen_rows_over
+
+            layout = F.gen_fasta(rng, maxlen=40)
+            buf = rng.choice([1, 2, 3, 5, 7])
+            rows = gen_rows_over(rng, layout, rng.randint(1, 6), strands=(1, -1), maxgap=rng.choice([buf, 2 * buf, 3 * buf + 1, 40]))
+            yield {"gen": "fasta+agp", "kind": "stream", "layout": layout, "data": F.render(layout), "buf": buf,
+                   "scaffolds": [{"name": "SUPER_1", "rows": rows}]}
         for _ in range(10 if tier == "quick" else 150):
             which = rng.choice(["agp", "tpf"])
             a = T.gen_asm(rng, tpf_able=(which == "tpf"))
@@ -64,6 +74,14 @@ class C06(Prop):
                 return {"index": ix}
             a = {"header": [], "scaffolds": ix["asm"]}
             return {"index": ix, "asm": a, "text": T.fmt(a, "agp")}
+        if k == "stream":
+            ctx = F.Ctx(self.pid, case["data"])
+            ix = ctx.index(250000)
+            if "err" in ix:
+                return {"index": ix}
+            fi = ctx.fasta_index(ix["idx"], case["buf"])
+            a = {"header": [], "scaffolds": case["scaffolds"]}
+            return {"index": ix, "asm": a, "text": T.fmt(a, "agp"), "fasta": F.stream_impl(fi, case["scaffolds"], 60)}
         from tola.assembly.scripts import asm_format
 
         text = T.fmt(case["asm"], case["fmt"])
@@ -74,7 +92,7 @@ class C06(Prop):
         k = case["kind"]
         if k == "format":
             return lambda names: f"CFormatAgp {T.asm_term(case['asm'], names)} {T.opt_text(obs['text'], names)}"
-        if k == "fasta":
+        if k in ("fasta", "stream"):
             if "err" in obs["index"]:
                 return []
             return lambda names: f"CFormatAgp {T.asm_term(obs['asm'], names)} {T.opt_text(obs['text'], names)}"
@@ -84,18 +102,45 @@ class C06(Prop):
 
     def oracle(self, case, obs):
         k = case["kind"]
-        if k == "fasta" and "err" in obs["index"]:
+        if k in ("fasta", "stream") and "err" in obs["index"]:
             return f"well-formed FASTA rejected: {obs['index']}"
         if k == "cli" and obs["exit"] != 0:
             return f"asm-format exited {obs['exit']}"
         text = obs["text"]
         if isinstance(text, dict):
             return f"format_agp raised {text}"
-        a = obs["asm"] if k == "fasta" else case["asm"]
-        return T.check_agp_text(text, scaffold_lengths(a))
+        a = obs["asm"] if k in ("fasta", "stream") else case["asm"]
+        w = T.check_agp_text(text, scaffold_lengths(a))
+        if w:
+            return w
+        ends = {}
+        for ln in text.splitlines():
+            f = ln.split("\t")
+            if len(f) > 2 and not ln.startswith("#"):
+                ends[f[0]] = int(f[2])
+        if k == "fasta":
+            # the .agp beside an indexed FASTA: every object ends at the record's real length
+            for r in case["layout"]["records"]:
+                if ends.get(r["name"]) != len(r["seq"]):
+                    return f"AGP object {r['name']} ends at {ends.get(r['name'])}, the FASTA record has {len(r['seq'])} residues"
+        if k == "stream":
+            if isinstance(obs["fasta"], dict):
+                return f"writing the FASTA raised {obs['fasta']}"
+            recs = {}
+            cur = None
+            for ln in obs["fasta"].split("\n"):
+                if ln.startswith(">"):
+                    cur = ln[1:]
+                    recs[cur] = 0
+                elif cur is not None:
+                    recs[cur] += len(ln)
+            for name, n in recs.items():
+                if n and ends.get(name) != n:
+                    return f"AGP object {name} ends at {ends.get(name)} but the FASTA record written with it has {n} residues"
+        return None
 
     def key(self, case, obs):
-        a = obs.get("asm") if case["kind"] == "fasta" else case.get("asm")
+        a = obs.get("asm") if case["kind"] in ("fasta", "stream") else case.get("asm")
         if not a or not any(len(sc["rows"]) >= 2 for sc in a["scaffolds"]):
             return None
         return super().key(case, obs)
